@@ -1021,6 +1021,90 @@ impl Session {
     }
 }
 
+/// Verification hooks (C03): raw session state, exchange slots, direct encoding.
+#[cfg(rs_matter_verif)]
+impl Session {
+    /// Verification hook: overwrite the message counter, the flags and the peer node id.
+    pub fn verif_set_raw(
+        &mut self,
+        msg_ctr: u32,
+        expired: bool,
+        reserved: bool,
+        peer_nodeid: Option<u64>,
+    ) {
+        self.msg_ctr = msg_ctr;
+        self.expired = expired;
+        self.reserved = reserved;
+        self.peer_nodeid = peer_nodeid;
+    }
+
+    /// Verification hook: put exchange slot `index` in the given role/state
+    /// (`'I'`/`'R'`, `'o'` owned / `'d'` dropped / `'p'` accept pending) with the given
+    /// pending retransmission counter and pending acknowledgement.
+    pub fn verif_set_exch(
+        &mut self,
+        index: usize,
+        role: char,
+        state: char,
+        retrans_ctr: Option<u32>,
+        ack: Option<(u32, bool)>,
+    ) -> bool {
+        use super::exchange::{InitiatorState, ResponderState};
+
+        let Some(Some(exch)) = self.exchanges.get_mut(index) else {
+            return false;
+        };
+
+        exch.role = match (role, state) {
+            ('I', 'd') => Role::Initiator(InitiatorState::Dropped),
+            ('I', _) => Role::Initiator(InitiatorState::Owned),
+            (_, 'd') => Role::Responder(ResponderState::Dropped),
+            (_, 'p') => Role::Responder(ResponderState::AcceptPending),
+            (_, _) => Role::Responder(ResponderState::Owned),
+        };
+        exch.mrp.retrans = retrans_ctr.map(|ctr| RetransEntry::new(None, ctr));
+        exch.mrp.ack = ack.map(|(msg_ctr, acknowledged)| mrp::AckEntry {
+            msg_ctr,
+            acknowledged,
+        });
+
+        true
+    }
+
+    /// Verification hook: free exchange slot `index` (leaves a `None` slot behind).
+    pub fn verif_clear_exch(&mut self, index: usize) {
+        if let Some(slot) = self.exchanges.get_mut(index) {
+            *slot = None;
+        }
+    }
+
+    /// Verification hook: `Session::encode` of an arbitrary header and payload.
+    /// Returns the number of bytes written to `out`.
+    pub fn verif_encode<C: Crypto>(
+        &self,
+        crypto: C,
+        tx: &PacketHdr,
+        payload: &[u8],
+        out: &mut [u8],
+    ) -> Result<usize, Error> {
+        let mut buf = [0u8; super::MAX_RX_BUF_SIZE];
+        let start = PacketHdr::HDR_RESERVE;
+        let end = start + payload.len();
+        if end > buf.len() {
+            return Err(ErrorCode::NoSpace.into());
+        }
+        buf[start..end].copy_from_slice(payload);
+        let mut wb = WriteBuf::new_with(&mut buf, start, end);
+        self.encode(crypto, tx, &mut wb)?;
+        let encoded = wb.as_slice();
+        if encoded.len() > out.len() {
+            return Err(ErrorCode::NoSpace.into());
+        }
+        out[..encoded.len()].copy_from_slice(encoded);
+        Ok(encoded.len())
+    }
+}
+
 impl fmt::Display for Session {
     fn fmt(&self, f: &mut fmt::Formatter<'_>) -> fmt::Result {
         write!(
@@ -1983,6 +2067,14 @@ impl Sessions {
         } else {
             None
         }
+    }
+}
+
+/// Verification hook (C03): the group counter store.
+#[cfg(all(rs_matter_verif, feature = "groups"))]
+impl Sessions {
+    pub fn verif_group_ctr_store(&self) -> &GroupCtrStore {
+        &self.group_ctr_store
     }
 }
 
